@@ -181,10 +181,10 @@ Lemma pow2_pos k : (0 < pow2 k)%Z.
 Proof. unfold pow2. apply Z.pow_pos_nonneg; lia. Qed.
 
 (* equality of two literals of the same kind, as the documented comparison computes it *)
-Lemma lit_cmp_eq l r : lit_same_kind l r = true -> l <> LNull ->
+Lemma lit_cmp_eq l r : lit_same_kind l r = true -> is_temporal_lit l = false -> l <> LNull ->
   exists c, cmp_val (lit_val l) (lit_val r) = Some c /\ (lit_eqb l r = true <-> c = Datatypes.Eq).
 Proof.
-  destruct l as [|x|x kx|a|s], r as [|y|y ky|b|t]; cbn [lit_same_kind]; try discriminate; intros _ NN; try congruence.
+  destruct l as [|x|x kx|a|s|tk ts], r as [|y|y ky|b|t|tk' ts']; cbn [lit_same_kind is_temporal_lit]; try discriminate; intros _ _ NN; try congruence.
   - exists (Z.compare x y). split.
     + cbn. unfold Qcompare. cbn. rewrite !Z.mul_1_r. reflexivity.
     + cbn [lit_eqb]. rewrite Z.eqb_eq, Z.compare_eq_iff. reflexivity.
@@ -198,14 +198,19 @@ Proof.
     exists c. split; [reflexivity|]. cbn [lit_eqb]. cbn [lit_val] in C. rewrite <- cmp_str, C. split; congruence.
 Qed.
 
-Lemma lit_eq_value l r : lit_same_kind l r = true -> l <> LNull ->
+Lemma lit_eq_value l r : lit_same_kind l r = true -> is_temporal_lit l = false -> l <> LNull ->
   eval_bop Eq (lit_val l) (lit_val r) = b2v (lit_eqb l r) /\ eval_bop Ne (lit_val l) (lit_val r) = b2v (negb (lit_eqb l r)).
 Proof.
-  intros K N. destruct (lit_cmp_eq l r K N) as [c [C E]]. unfold eval_bop. rewrite C.
+  intros K T N. destruct (lit_cmp_eq l r K T N) as [c [C E]]. unfold eval_bop. rewrite C.
   destruct (lit_eqb l r).
   - rewrite (proj1 E eq_refl). split; reflexivity.
   - destruct c; [pose proof (proj2 E eq_refl) as X; discriminate X| |]; split; reflexivity.
 Qed.
+
+Lemma lit_eval_nt l : is_temporal_lit l = false -> lit_eval l = Some (lit_val l).
+Proof. unfold lit_eval. intros ->. reflexivity. Qed.
+Lemma same_kind_temporal l r : lit_same_kind l r = true -> is_temporal_lit r = is_temporal_lit l.
+Proof. destruct l, r; cbn; intros; try discriminate; reflexivity. Qed.
 
 Lemma same_kind_null l r : lit_same_kind l r = true -> (l = LNull <-> r = LNull).
 Proof. destruct l, r; cbn; intros; try discriminate; split; congruence. Qed.
@@ -227,46 +232,54 @@ Lemma static_eval_op_sound env n args : eval_r env (static_eval_op n args) = eva
 Proof.
   unfold static_eval_op.
   destruct (leqb n n_not) eqn:E1.
-  { apply leqb_spec in E1. subst n. destruct args as [|[i|[| | |b|]|m a|cs] [|? ?]]; try reflexivity.
+  { apply leqb_spec in E1. subst n. destruct args as [|[i|[| | |b| |]|m a|cs] [|? ?]]; try reflexivity.
     destruct b; vm_compute; reflexivity. }
   destruct (leqb n n_neg) eqn:E2.
-  { apply leqb_spec in E2. subst n. destruct args as [|[i|[|v|v k|b|]|m a|cs] [|? ?]]; try reflexivity.
+  { apply leqb_spec in E2. subst n. destruct args as [|[i|[|v|v k|b| |]|m a|cs] [|? ?]]; try reflexivity.
     - destruct (Z.eqb v i64_min); reflexivity.   (* i64::MIN: the call is kept (/repo 222f71a) *)
-    - cbn [eval_r]. rewrite leqb_refl. cbn [option_map eval_r lit_val eval_neg arith to_q]. f_equal. f_equal.
+    - cbn [eval_r]. rewrite leqb_refl. cbn [option_map eval_r lit_eval is_temporal_lit lit_val eval_neg arith to_q]. f_equal. f_equal.
       apply Qred_complete. rewrite Qred_correct. unfold Qminus, Qopp, Qplus, Qeq; cbn. ring. }
   destruct (leqb n n_eq) eqn:E3.
   { apply leqb_spec in E3. subst n.
     destruct args as [|[i|l|m a|cs] [|[j|r|m' a'|cs'] [|? ?]]]; try reflexivity.
-    destruct (lit_same_kind l r) eqn:K; [|reflexivity].
+    destruct (lit_same_kind l r && negb (is_temporal_lit l)) eqn:K0; [|reflexivity].
+    apply andb_true_iff in K0 as [K T]. apply negb_true_iff in T.
+    pose proof (same_kind_temporal _ _ K) as Tr. rewrite T in Tr.
     change n_eq with (expand_binop B_Eq). rewrite eval_r_std. cbn [rq_reversed is_eq_op eval_r is_null].
-    destruct l as [|x|x kx|a|s].
+    rewrite (lit_eval_nt _ T), (lit_eval_nt _ Tr).
+    destruct l as [|x|x kx|a|s|tk ts].
     - assert (r = LNull) by (apply (same_kind_null _ _ K); reflexivity). subst r. reflexivity.
-    - destruct r; try discriminate K. cbn [orb]. cbn [eval_binop]. rewrite (proj1 (lit_eq_value _ _ K ltac:(discriminate))). reflexivity.
-    - destruct r; try discriminate K. cbn [orb]. cbn [eval_binop]. rewrite (proj1 (lit_eq_value _ _ K ltac:(discriminate))). reflexivity.
-    - destruct r; try discriminate K. cbn [orb]. cbn [eval_binop]. rewrite (proj1 (lit_eq_value _ _ K ltac:(discriminate))). reflexivity.
-    - destruct r; try discriminate K. cbn [orb]. cbn [eval_binop]. rewrite (proj1 (lit_eq_value _ _ K ltac:(discriminate))). reflexivity. }
+    - destruct r; try discriminate K. cbn [orb]. cbn [eval_binop]. rewrite (proj1 (lit_eq_value _ _ K T ltac:(discriminate))). reflexivity.
+    - destruct r; try discriminate K. cbn [orb]. cbn [eval_binop]. rewrite (proj1 (lit_eq_value _ _ K T ltac:(discriminate))). reflexivity.
+    - destruct r; try discriminate K. cbn [orb]. cbn [eval_binop]. rewrite (proj1 (lit_eq_value _ _ K T ltac:(discriminate))). reflexivity.
+    - destruct r; try discriminate K. cbn [orb]. cbn [eval_binop]. rewrite (proj1 (lit_eq_value _ _ K T ltac:(discriminate))). reflexivity.
+    - discriminate T. }
   destruct (leqb n n_ne) eqn:E4.
   { apply leqb_spec in E4. subst n.
     destruct args as [|[i|l|m a|cs] [|[j|r|m' a'|cs'] [|? ?]]]; try reflexivity.
-    destruct (lit_same_kind l r) eqn:K; [|reflexivity].
+    destruct (lit_same_kind l r && negb (is_temporal_lit l)) eqn:K0; [|reflexivity].
+    apply andb_true_iff in K0 as [K T]. apply negb_true_iff in T.
+    pose proof (same_kind_temporal _ _ K) as Tr. rewrite T in Tr.
     change n_ne with (expand_binop B_Ne). rewrite eval_r_std. cbn [rq_reversed is_eq_op eval_r is_null].
-    destruct l as [|x|x kx|a|s].
+    rewrite (lit_eval_nt _ T), (lit_eval_nt _ Tr).
+    destruct l as [|x|x kx|a|s|tk ts].
     - assert (r = LNull) by (apply (same_kind_null _ _ K); reflexivity). subst r. reflexivity.
-    - destruct r; try discriminate K. cbn [orb]. cbn [eval_binop]. rewrite (proj2 (lit_eq_value _ _ K ltac:(discriminate))). reflexivity.
-    - destruct r; try discriminate K. cbn [orb]. cbn [eval_binop]. rewrite (proj2 (lit_eq_value _ _ K ltac:(discriminate))). reflexivity.
-    - destruct r; try discriminate K. cbn [orb]. cbn [eval_binop]. rewrite (proj2 (lit_eq_value _ _ K ltac:(discriminate))). reflexivity.
-    - destruct r; try discriminate K. cbn [orb]. cbn [eval_binop]. rewrite (proj2 (lit_eq_value _ _ K ltac:(discriminate))). reflexivity. }
+    - destruct r; try discriminate K. cbn [orb]. cbn [eval_binop]. rewrite (proj2 (lit_eq_value _ _ K T ltac:(discriminate))). reflexivity.
+    - destruct r; try discriminate K. cbn [orb]. cbn [eval_binop]. rewrite (proj2 (lit_eq_value _ _ K T ltac:(discriminate))). reflexivity.
+    - destruct r; try discriminate K. cbn [orb]. cbn [eval_binop]. rewrite (proj2 (lit_eq_value _ _ K T ltac:(discriminate))). reflexivity.
+    - destruct r; try discriminate K. cbn [orb]. cbn [eval_binop]. rewrite (proj2 (lit_eq_value _ _ K T ltac:(discriminate))). reflexivity.
+    - discriminate T. }
   destruct (leqb n n_and) eqn:E5.
   { apply leqb_spec in E5. subst n.
-    destruct args as [|[i|[| | |a|]|m a|cs] [|[j|[| | |b|]|m' a'|cs'] [|? ?]]]; try reflexivity.
+    destruct args as [|[i|[| | |a| |]|m a|cs] [|[j|[| | |b| |]|m' a'|cs'] [|? ?]]]; try reflexivity.
     destruct a, b; vm_compute; reflexivity. }
   destruct (leqb n n_or) eqn:E6.
   { apply leqb_spec in E6. subst n.
-    destruct args as [|[i|[| | |a|]|m a|cs] [|[j|[| | |b|]|m' a'|cs'] [|? ?]]]; try reflexivity.
+    destruct args as [|[i|[| | |a| |]|m a|cs] [|[j|[| | |b| |]|m' a'|cs'] [|? ?]]]; try reflexivity.
     destruct a, b; vm_compute; reflexivity. }
   destruct (leqb n n_coalesce) eqn:E7.
   { apply leqb_spec in E7. subst n.
-    destruct args as [|[i|[| | | |]|m a|cs] [|x [|? ?]]]; try reflexivity.
+    destruct args as [|[i|[| | | | |]|m a|cs] [|x [|? ?]]]; try reflexivity.
     change n_coalesce with (expand_binop B_Coalesce). rewrite eval_r_std. cbn [rq_reversed is_eq_op eval_r lit_val].
     destruct (eval_r env x); reflexivity. }
   reflexivity.
@@ -277,7 +290,7 @@ Lemma case_filter_sound env cs : eval_r env (RCase (case_filter cs)) = eval_r en
 Proof.
   induction cs as [|[c v] t IH]; [reflexivity|].
   cbn [case_filter].
-  destruct c as [i|[| | |b|]|n a|cs']; try (rewrite !eval_r_case_cons, IH; reflexivity).
+  destruct c as [i|[| | |b| |]|n a|cs']; try (rewrite !eval_r_case_cons, IH; reflexivity).
   destruct b.
   - rewrite !eval_r_case_cons. reflexivity.
   - rewrite eval_r_case_cons, IH. reflexivity.
@@ -287,9 +300,9 @@ Lemma static_eval_case_sound env cs : eval_r env (static_eval_case cs) = eval_r 
 Proof.
   rewrite <- case_filter_sound. unfold static_eval_case.
   destruct (case_filter cs) as [|[c v] [|p t]]; [reflexivity| |].
-  - destruct c as [i|[| | |b|]|n a|cs']; try reflexivity.
+  - destruct c as [i|[| | |b| |]|n a|cs']; try reflexivity.
     destruct b; [|reflexivity]. rewrite eval_r_case_cons. reflexivity.
-  - destruct c as [i|[| | |b|]|n a|cs']; try reflexivity. destruct b; reflexivity.
+  - destruct c as [i|[| | |b| |]|n a|cs']; try reflexivity. destruct b; reflexivity.
 Qed.
 
 (* --- `in` --- *)
@@ -349,7 +362,7 @@ Proof.
       assert (NF : uses_null_flag n = true -> forall a, In a args -> is_null (seval a) = is_null a).
       { intros U a Ha. rewrite U in NC2. rewrite forallb_forall in NC2. specialize (NC2 a Ha).
         destruct (is_null a) eqn:Na.
-        - destruct a as [|[| | | |]| |]; try discriminate. reflexivity.
+        - destruct a as [|[| | | | |]| |]; try discriminate. reflexivity.
         - cbn in NC2. apply negb_true_iff in NC2. exact NC2. }
       clear NC2. induction IH as [|a t Ha Ht IHt]; cbn [map]; constructor.
       - split; [apply Ha; apply NC1; left; reflexivity|]. intros U. apply NF; [exact U|left; reflexivity].
